@@ -452,7 +452,13 @@ async def get_outputs(world: World, sim: SimRunner):
         # pushed forward below, but it is faster to just save everything
         # than filter out this data here.
         if sim.outputs is not None:
-            sim.outputs[output_time] = data
+            # An in-process simulator hands us its own object and may
+            # reuse (and update) it for its next outputs, so cache a
+            # copy of the levels that mosaik reads (entity, attribute).
+            sim.outputs[output_time] = {
+                eid: dict(attrs) if isinstance(attrs, dict) else attrs
+                for eid, attrs in data.items()
+            }
 
         # Push forward certain data
         for (src_eid, src_attr), destinations in sim.output_to_push.items():
